@@ -526,6 +526,26 @@ def c01_analyze(i: int, partials: bool) -> bool:
 
 CONDITIONS.append({"fn": "c01_analyze", "quick": 60, "thorough": 120, "sel_only": True})
 
+# ---- the shared corpus: render == render_async on every member -------------------------------------------------------
+from harness import corpus as _corpus  # noqa: E402
+
+_CENV = _corpus.make_env(Env)
+
+
+def _corpus_check(w2, w1, leaf, d):
+    t = _corpus.template(_CENV, w2, w1, leaf)
+    if t is None:
+        return None
+    a = _corpus.outcome(lambda: t.render(**_corpus.data(d)))
+    b = _corpus.outcome(lambda: drive(t.render_async(**_corpus.data(d))))
+    return None if a == b else {"render": a, "render_async": b}
+
+
+c01_corpus, _det = _corpus.mk_condition("c01_corpus", _corpus_check)
+DETAIL = globals().get("DETAIL", {})
+DETAIL["c01_corpus"] = _det
+CONDITIONS.append({"fn": "c01_corpus", "quick": 90, "thorough": 200, "sel_only": True, "bounds": _corpus.BOUNDS})
+
 ASSUMPTIONS = [
     "template sources are the concrete skeletons of harness/c01.py; x, y in None|bool|int(-1..3)|str<=1, z bool, list length 0..3 are symbolic",
     "coroutines are driven with send(None): none of the exercised awaits may suspend (asyncio's executor in the file system loader is replaced by an inline loop)",
